@@ -6,13 +6,17 @@ import Mathlib.Tactic.Linarith
 import Mathlib.Tactic.FieldSimp
 import Mathlib.Tactic.Positivity
 import Mathlib.Tactic.LinearCombination
+import Mathlib.Tactic.NormNum
+import Mathlib.Order.Lattice
+import Mathlib.Algebra.Order.Ring.Rat
 
 /-! # C16 — plots: the pure pieces
 
 `intersection_iff`: the helper's test is equivalent to the existence of a common point, for every pair of non-parallel
 segments over an ordered field.  `broadcast_spec`: per-element and per-subset-element labels give the same colours.
-`tile9_alignment`: image `j` of edge `i` carries colour `i`.  The visible-image rule ("crosses the cell or lies fully inside
-⇔ meets the open cell") is stated and *not* proved; it is decided by exact clipping of the drawn artists (correspondence). -/
+`tile9_alignment`: image `j` of edge `i` carries colour `i`.  `fractions_sum_one`: the nine periodic images of an edge show, inside the unit cell, fractions of it that add up to exactly 1
+(exact clipping, the oracle the harness applies to the drawn artists).  That the code draws exactly the images with a positive
+fraction ("crosses the cell or lies fully inside") is decided on the artists (correspondence). -/
 
 namespace C16
 open Plot
@@ -162,5 +166,128 @@ theorem fully_inside_meets (p v : ℚ × ℚ) (h0 : 0 < p.1 ∧ p.1 < 1 ∧ 0 < 
 example : intersects (0, 0) (4, 4) (0, 4) (4, 0) = some true := by decide
 example : intersects (0, 0) (1, 1) (0, 4) (4, 0) = some false := by decide
 example : broadcast 5 [1, 3] (.array [7, 8, 9, 10, 11]) = some [8, 10] ∧ broadcast 5 [1, 3] (.array [8, 10]) = some [8, 10] := by decide
+
+/-! ### every edge appears in full in the periodic images that meet the cell -/
+
+theorem frac_eq_cap (p d : ℚ × ℚ) :
+    frac p d = cap (tInt p.2 d.2) (max (tInt p.1 d.1).1 0) (min (tInt p.1 d.1).2 1) := by
+  unfold frac cap
+  simp only
+  congr 2
+  · rw [min_assoc, min_comm (tInt p.2 d.2).2 1, ← min_assoc, min_comm]
+  · rw [max_assoc, max_comm (tInt p.2 d.2).1 0, ← max_assoc, max_comm]
+
+/-- two adjacent intervals: the lengths of their intersections with `[u, v]` add up -/
+theorem cap_split (a c b u v : ℚ) (hac : a ≤ c) (hcb : c ≤ b) :
+    cap (a, c) u v + cap (c, b) u v = cap (a, b) u v := by
+  unfold cap
+  simp only [max_def, min_def]
+  split_ifs <;> linarith
+
+theorem cap_cover (I : ℚ × ℚ) (u v : ℚ) (h0 : I.1 ≤ u) (h1 : v ≤ I.2) : cap I u v = max 0 (v - u) := by
+  unfold cap; rw [min_eq_right h1, max_eq_right h0]
+
+theorem cap_empty (u v : ℚ) (hu : 0 ≤ u) (hv : v ≤ 1) : cap ((1 : ℚ), (0 : ℚ)) u v = 0 := by
+  unfold cap
+  simp only [max_def, min_def]
+  split_ifs <;> linarith
+
+/-- **along one axis the three cells −1, 0, 1 partition the segment**: for a start coordinate in `[0,1)` and a
+    displacement shorter than one cell, the lengths of the three `t`-intervals inside any `[u, v] ⊆ [0, 1]` add up to
+    `v − u` (an edge parallel to the axis is required not to lie on a cell wall) -/
+theorem axis_partition (a δ u v : ℚ) (ha0 : 0 ≤ a) (ha1 : a < 1) (hδ0 : -1 < δ) (hδ1 : δ < 1) (hgen : δ ≠ 0 ∨ 0 < a)
+    (hu : 0 ≤ u) (hv : v ≤ 1) :
+    cap (axisInt a δ (-1)) u v + cap (axisInt a δ 0) u v + cap (axisInt a δ 1) u v = max 0 (v - u) := by
+  unfold axisInt tInt
+  simp only [Int.cast_neg, Int.cast_one, Int.cast_zero, sub_zero, sub_neg_eq_add]
+  rcases lt_trichotomy δ 0 with hneg | hzero | hpos
+  · -- δ < 0: cell 1 comes first
+    have hnp : ¬ (0 < δ) := not_lt.mpr (le_of_lt hneg)
+    simp only [hnp, hneg, if_false, if_true]
+    have e1 : (1 - (a - 1)) / δ ≤ (0 - (a - 1)) / δ := by
+      rw [div_le_div_right_of_neg hneg]; linarith
+    have e2 : (0 - (a - 1)) / δ = (1 - a) / δ := by congr 1; ring
+    have e3 : (1 - a) / δ ≤ (0 - a) / δ := by
+      rw [div_le_div_right_of_neg hneg]; linarith
+    have e4 : (0 - a) / δ = (1 - (a + 1)) / δ := by congr 1; ring
+    have e5 : (1 - (a + 1)) / δ ≤ (0 - (a + 1)) / δ := by
+      rw [div_le_div_right_of_neg hneg]; linarith
+    have s1 := cap_split ((1 - (a - 1)) / δ) ((1 - a) / δ) ((0 - a) / δ) u v (e2 ▸ e1) e3
+    have s2 := cap_split ((1 - (a - 1)) / δ) ((0 - a) / δ) ((0 - (a + 1)) / δ) u v (le_trans (e2 ▸ e1) e3) (e4 ▸ e5)
+    rw [e2, ← e4]
+    have hlo : (1 - (a - 1)) / δ ≤ u := by
+      refine le_trans ?_ hu
+      apply div_nonpos_of_nonneg_of_nonpos <;> linarith
+    have hhi : v ≤ (0 - (a + 1)) / δ := by
+      refine le_trans hv ?_
+      rw [le_div_iff_of_neg hneg]; linarith
+    have := cap_cover ((1 - (a - 1)) / δ, (0 - (a + 1)) / δ) u v hlo hhi
+    linarith
+  · subst hzero
+    have ha : 0 < a := by
+      rcases hgen with h | h
+      · exact absurd rfl h
+      · exact h
+    have c0 : 0 ≤ a ∧ a ≤ 1 := ⟨ha0, le_of_lt ha1⟩
+    have c1 : ¬ (0 ≤ a + 1 ∧ a + 1 ≤ 1) := by rintro ⟨_, h⟩; linarith
+    have c2 : ¬ (0 ≤ a - 1 ∧ a - 1 ≤ 1) := by rintro ⟨h, _⟩; linarith
+    simp only [lt_irrefl, if_false, c0, c1, c2, and_self, if_true]
+    rw [cap_empty u v hu hv, cap_cover ((0 : ℚ), (1 : ℚ)) u v hu hv]; ring
+  · have hnn : ¬ (δ < 0) := not_lt.mpr (le_of_lt hpos)
+    simp only [hpos, if_true]
+    have e1 : (0 - (a + 1)) / δ ≤ (1 - (a + 1)) / δ := by
+      rw [div_le_div_iff_of_pos_right hpos]; linarith
+    have e2 : (1 - (a + 1)) / δ = (0 - a) / δ := by congr 1; ring
+    have e3 : (0 - a) / δ ≤ (1 - a) / δ := by
+      rw [div_le_div_iff_of_pos_right hpos]; linarith
+    have e4 : (1 - a) / δ = (0 - (a - 1)) / δ := by congr 1; ring
+    have e5 : (0 - (a - 1)) / δ ≤ (1 - (a - 1)) / δ := by
+      rw [div_le_div_iff_of_pos_right hpos]; linarith
+    have s1 := cap_split ((0 - (a + 1)) / δ) ((0 - a) / δ) ((1 - a) / δ) u v (e2 ▸ e1) e3
+    have s2 := cap_split ((0 - (a + 1)) / δ) ((1 - a) / δ) ((1 - (a - 1)) / δ) u v (le_trans (e2 ▸ e1) e3) (e4 ▸ e5)
+    rw [e2, ← e4]
+    have hlo : (0 - (a + 1)) / δ ≤ u := by
+      refine le_trans ?_ hu
+      apply div_nonpos_of_nonpos_of_nonneg <;> linarith
+    have hhi : v ≤ (1 - (a - 1)) / δ := by
+      refine le_trans hv ?_
+      rw [le_div_iff₀ hpos]; linarith
+    have := cap_cover ((0 - (a + 1)) / δ, (1 - (a - 1)) / δ) u v hlo hhi
+    linarith
+
+/-- the images of one cell column: the three images shifted by `(−ox, ·)` together show the part of the segment whose
+    `x` lies in cell `ox` -/
+theorem column_sum (p d : ℚ × ℚ) (ox : ℤ) (hp : 0 ≤ p.2 ∧ p.2 < 1) (hd : -1 < d.2 ∧ d.2 < 1) (hg : d.2 ≠ 0 ∨ 0 < p.2) :
+    frac (p.1 - ox, p.2 - ((-1 : ℤ) : ℚ)) d + frac (p.1 - ox, p.2 - ((0 : ℤ) : ℚ)) d + frac (p.1 - ox, p.2 - ((1 : ℤ) : ℚ)) d
+      = cap (axisInt p.1 d.1 ox) 0 1 := by
+  rw [frac_eq_cap, frac_eq_cap, frac_eq_cap]
+  simp only
+  have := axis_partition p.2 d.2 (max (tInt (p.1 - ox) d.1).1 0) (min (tInt (p.1 - ox) d.1).2 1) hp.1 hp.2 hd.1 hd.2 hg
+    (le_max_right _ _) (min_le_right _ _)
+  unfold axisInt at this ⊢
+  rw [this]
+  rfl
+
+/-- **C16 (edges, length clause)**: an edge that starts in the unit cell and spans less than one cell in each
+    direction appears *in full* in its nine periodic images: the fractions of the images that lie inside the unit cell
+    add up to exactly 1 (so the total drawn length inside the cell is the length of the edge).  An axis-parallel edge is
+    required not to lie on a cell wall. -/
+theorem fractions_sum_one (p d : ℚ × ℚ) (hp1 : 0 ≤ p.1 ∧ p.1 < 1) (hp2 : 0 ≤ p.2 ∧ p.2 < 1)
+    (hd1 : -1 < d.1 ∧ d.1 < 1) (hd2 : -1 < d.2 ∧ d.2 < 1) (hg1 : d.1 ≠ 0 ∨ 0 < p.1) (hg2 : d.2 ≠ 0 ∨ 0 < p.2) :
+    (frac (p.1 - ((-1 : ℤ) : ℚ), p.2 - ((-1 : ℤ) : ℚ)) d + frac (p.1 - ((-1 : ℤ) : ℚ), p.2 - ((0 : ℤ) : ℚ)) d
+        + frac (p.1 - ((-1 : ℤ) : ℚ), p.2 - ((1 : ℤ) : ℚ)) d)
+      + (frac (p.1 - ((0 : ℤ) : ℚ), p.2 - ((-1 : ℤ) : ℚ)) d + frac (p.1 - ((0 : ℤ) : ℚ), p.2 - ((0 : ℤ) : ℚ)) d
+        + frac (p.1 - ((0 : ℤ) : ℚ), p.2 - ((1 : ℤ) : ℚ)) d)
+      + (frac (p.1 - ((1 : ℤ) : ℚ), p.2 - ((-1 : ℤ) : ℚ)) d + frac (p.1 - ((1 : ℤ) : ℚ), p.2 - ((0 : ℤ) : ℚ)) d
+        + frac (p.1 - ((1 : ℤ) : ℚ), p.2 - ((1 : ℤ) : ℚ)) d) = 1 := by
+  rw [column_sum p d (-1) hp2 hd2 hg2, column_sum p d 0 hp2 hd2 hg2, column_sum p d 1 hp2 hd2 hg2,
+    axis_partition p.1 d.1 0 1 hp1.1 hp1.2 hd1.1 hd1.2 hg1 (le_refl 0) (le_refl 1)]
+  norm_num
+
+/-- non-vacuity: a diagonal edge through the cell corner, a quarter of it in each of four images … -/
+example : frac ((3 : ℚ) / 4, (3 : ℚ) / 4) ((1 : ℚ) / 2, (1 : ℚ) / 2) = 1 / 2 := by
+  unfold frac tInt; norm_num
+example : frac ((3 : ℚ) / 4 - 1, (3 : ℚ) / 4 - 1) ((1 : ℚ) / 2, (1 : ℚ) / 2) = 1 / 2 := by
+  unfold frac tInt; norm_num
 
 end C16
